@@ -309,3 +309,8 @@ def finalize(m, tier):
 def replay(ctx, case):
     signal.signal(signal.SIGVTALRM, _on_vtalrm)
     execute(ctx, case['text'], case['renderer'], case['opts'], case.get('form', 'str'), case.get('source', 'replay'))
+
+
+import os as _os  # noqa: E402
+if _os.environ.get('VERIF_NO_PINNED'):
+    PINNED = []
